@@ -2,6 +2,7 @@ import MimicProofs.Packets
 import MimicProofs.Params
 import MimicProps.C03
 import MimicProps.C10
+import MimicProofs.ParsersCode
 /-!
 # C07 — Malformed or hostile packets cannot hang, crash or wedge the server
 
@@ -95,5 +96,65 @@ theorem closed_releases_registration (evs : List Ev) (hwf : ∀ e ∈ evs, e.wf)
 
 /-- non-vacuity: a 2^64-1 `total_l` with three bytes of input is rejected after a bounded number of steps -/
 example : connectAttrs some ([0xFE, 0xFF, 0xFF, 0xFF, 0xFF, 0xFF, 0xFF, 0xFF, 0xFF] ++ [1, 65, 0]) = none := by decide
+
+/-! ### the code itself (`Mimic.Extracted.ParsersCode`, regenerated from `/repo` by `harness/pytrans2.py`) -/
+
+/-- **Every `while` loop of the translated client-packet parsers terminates** within the fuel the translator chose
+    (one more than the number of unread bytes), for every input: `read_str_null` (`while True`) and the
+    `while total_l > 0` of `_read_connect_attrs`, whatever total length the packet claims and whatever the codec does.
+    The other loops of the parsers are `for` loops over `range(n)` / lists (structurally finite; see
+    `code_parameter_loop_bounded` for the number of rounds). -/
+theorem code_loops_terminate :
+    (∀ r : Mimic.Py.Bytes, Mimic.Py.loopM (r.length + 1) (([] : Mimic.Py.Bytes), r)
+        Mimic.Extracted.ParsersCode.read_str_null_loop1 ≠ none) ∧
+    (∀ (E : Mimic.Py.Env (List Char)) (cs : Nat) (r : Mimic.Py.Bytes) (d : List (List Char × List Char)) (total : Int),
+        Mimic.Py.loopM (r.length + 1) (d, total, r) (Mimic.Extracted.ParsersCode.read_connect_attrs_loop1 E cs) ≠ none) :=
+  ⟨MimicProofs.ParsersCode.read_str_null_terminates,
+   fun E cs r d total => MimicProofs.ParsersCode.connect_attrs_loop_terminates E cs r.length r rfl d total (r.length + 1) (by omega)⟩
+
+/-- the translated `read_str_null` is the model's `readNul` (so `read_str_null_bounded` is a statement about the code) -/
+theorem code_read_str_null (r : Mimic.Py.Bytes) :
+    Mimic.Extracted.ParsersCode.read_str_null r = some (readNul r) :=
+  MimicProofs.ParsersCode.read_str_null_eq r
+
+/-- **a parameter block that claims more parameters than there are bytes is rejected by the code**: when the translated
+    `_read_params` returns at all, its two `for` loops ran at most `len/2` rounds -/
+theorem code_parameter_loop_bounded (E : Mimic.Py.Env (List Char)) (caps cs : Nat) (valid : List Nat)
+    (hv : ∀ n, E.validType n = valid.contains n) (hE : E.decode cs [] = some E.empty) (count : Nat)
+    (buffers : Option (List (Nat × Mimic.Py.Bytes))) (r : Mimic.Py.Bytes) (hr : r.length < 2 ^ 63)
+    (out : List (Option (List Char) × Mimic.Py.Val (List Char)) × Mimic.Py.Bytes)
+    (h : Mimic.Extracted.ParsersCode.read_params E r caps cs count buffers = some out) : 2 * count ≤ r.length := by
+  rw [MimicProofs.ParsersCode.read_params_eq E caps cs valid hv hE count buffers r hr] at h
+  cases hm : readParams valid (E.decode cs) (Mimic.Py.hasBit caps 27) count (MimicProofs.ParsersCode.bufFn buffers) r with
+  | none => simp [hm] at h
+  | some q =>
+    unfold readParams at hm
+    by_cases hc : count = 0
+    · omega
+    · simp only [hc, if_false] at hm
+      cases htake : takeN ((count + 7) / 8) r with
+      | none => simp [htake] at hm
+      | some p =>
+        obtain ⟨bm, b1⟩ := p
+        simp only [htake] at hm
+        cases b1 with
+        | nil => simp at hm
+        | cons flag b2 =>
+          simp only at hm
+          by_cases hflag : flag = 0
+          · simp [hflag] at hm
+          · simp only [hflag, if_false] at hm
+            cases hty : readTypes valid (Mimic.Py.hasBit caps 27) count b2 with
+            | none => simp [hty] at hm
+            | some t =>
+              obtain ⟨types, b3⟩ := t
+              have hb := readTypes_needs_bytes valid _ count b2 types b3 hty
+              unfold takeN at htake
+              split at htake
+              · simp at htake
+                have hl : (flag :: b2).length = r.length - (count + 7) / 8 := by rw [← htake.2]; simp
+                simp at hl
+                omega
+              · simp at htake
 
 end MimicProps.C07
